@@ -1645,8 +1645,11 @@ def _function_local_names(block: List[str]) -> Set[str]:
 
     import textwrap
 
+    # comment lines may sit at any column (also left of the body): they say nothing
+    # about the body's indentation
+    code = [ln for ln in block if ln.strip() and not ln.lstrip().startswith("#")]
     try:
-        tree = ast.parse(textwrap.dedent("\n".join(block)))
+        tree = ast.parse(textwrap.dedent("\n".join(code)))
     except SyntaxError:
         return set()
     bound: Set[str] = set()
